@@ -126,6 +126,18 @@ type ArgTree struct {
 	PRoot  *Tree
 }
 
+// ArgPaged: the own arguments of a paginated field (next to first/after/... that thunder adds)
+type ArgPaged struct {
+	PI   *int64
+	PS   *string
+	OptI int64 `graphql:",optional"`
+	Req  int32
+	PN   *Nested
+	LS   []string
+}
+
+type PagedItem struct{ Id int64 }
+
 var sink struct {
 	mu    sync.Mutex
 	calls []interface{}
@@ -148,6 +160,9 @@ func init() {
 	q.FieldFunc("ptrs", func(ctx context.Context, a ArgPtrs) bool { record(a); return true })
 	q.FieldFunc("lists", func(a ArgLists) (bool, error) { record(a); return true, nil })
 	q.FieldFunc("tree", func(a ArgTree) bool { record(a); return true })
+	pi := s.Object("PagedItem", PagedItem{})
+	pi.Key("id")
+	q.FieldFunc("paged", func(a ArgPaged) []PagedItem { record(a); return []PagedItem{{Id: 1}, {Id: 2}} }, schemabuilder.Paginated)
 	schema = s.MustBuild()
 }
 
@@ -380,7 +395,7 @@ func isOptional(sf reflect.StructField) bool {
 	return sf.Type.Kind() == reflect.Ptr || strings.Contains(sf.Tag.Get("graphql"), "optional")
 }
 
-var structs = map[string]reflect.Type{"scalars": reflect.TypeOf(ArgScalars{}), "ptrs": reflect.TypeOf(ArgPtrs{}), "lists": reflect.TypeOf(ArgLists{}), "tree": reflect.TypeOf(ArgTree{})}
+var structs = map[string]reflect.Type{"scalars": reflect.TypeOf(ArgScalars{}), "ptrs": reflect.TypeOf(ArgPtrs{}), "lists": reflect.TypeOf(ArgLists{}), "tree": reflect.TypeOf(ArgTree{}), "paged": reflect.TypeOf(ArgPaged{})}
 
 var treeType = reflect.TypeOf(Tree{})
 
@@ -393,7 +408,7 @@ var varCounter int
 
 func genCase(t *rapid.T, forceTransport string) built {
 	varCounter = 0
-	name := rapid.SampledFrom([]string{"scalars", "ptrs", "lists", "tree"}).Draw(t, "struct")
+	name := rapid.SampledFrom([]string{"scalars", "ptrs", "lists", "tree", "paged", "paged"}).Draw(t, "struct")
 	typ := structs[name]
 	exp := reflect.New(typ).Elem()
 	c := Case{Struct: name}
@@ -458,8 +473,14 @@ func render(c Case) (string, map[string]interface{}) {
 		q += "(" + strings.Join(defs, ", ") + ")"
 	}
 	q += " { " + c.Struct
+	if c.Struct == "paged" && rapid_first(c) {
+		args = append(args, "first: 1")
+	}
 	if len(args) > 0 {
 		q += "(" + strings.Join(args, ", ") + ")"
+	}
+	if c.Struct == "paged" {
+		q += " { totalCount }"
 	}
 	q += " }"
 	// variables travel as JSON
@@ -470,6 +491,12 @@ func render(c Case) (string, map[string]interface{}) {
 		jv = map[string]interface{}{}
 	}
 	return q, jv
+}
+
+// rapid_first: whether the paged field also gets one of thunder's own pagination arguments
+// (decided by the case, not drawn here: render must stay a pure function of the case)
+func rapid_first(c Case) bool {
+	return len(c.Fields)%2 == 0 || len(c.Fields) > 0 && c.Fields[0].Transport != "omitted"
 }
 
 func equalish(a, b reflect.Value) bool {
